@@ -5,7 +5,7 @@
 // Oracles: (1) exact rational arithmetic in __int128 (floor / ceil / trunc / round-half-even of count*P1/P2),
 //          (2) libstdc++ std::chrono instantiated with the same Rep and std::ratio<N,D>.
 //
-// One source, several translation units: the 7 x 10 x 10 (rep combination, period, period) template groups are
+// One source, several translation units: the (rep combination, period, period) template groups (see group_exists) are
 // distributed over C12_NSLICES harness binaries (-DC12_SLICE=k -DC12_NSLICES=n) so that they compile in parallel.
 // To keep the instantiated code small, the templates only contain one-line wrappers ("ops") around the etl and std
 // calls; domain computation, comparison with the oracles and message formatting are ordinary functions driven by a
@@ -286,7 +286,7 @@ struct OpsTable {
     void (*unary)(int, Num, Num, Num*);   // see driver
 };
 
-template <typename L, typename R1, typename R2, int I, int J>
+template <typename L, typename R1, typename R2, int I, int J, bool WithTP>
 struct Ops {
     using D1 = typename L::template dur<R1, I>;
     using D2 = typename L::template dur<R2, J>;
@@ -340,27 +340,43 @@ struct Ops {
     }
     static auto tp_cmp(Num a, Num b) -> unsigned
     {
-        T1 const x{d1(a)};
-        T2 const y{d2(b)};
-        return (x == y ? 1U : 0U) | (x != y ? 2U : 0U) | (x < y ? 4U : 0U) | (x <= y ? 8U : 0U) | (x > y ? 16U : 0U) | (x >= y ? 32U : 0U);
+        if constexpr (WithTP) {
+            T1 const x{d1(a)};
+            T2 const y{d2(b)};
+            return (x == y ? 1U : 0U) | (x != y ? 2U : 0U) | (x < y ? 4U : 0U) | (x <= y ? 8U : 0U) | (x > y ? 16U : 0U) | (x >= y ? 32U : 0U);
+        } else {
+            (void)a;
+            (void)b;
+            return 0;
+        }
     }
     static void tp_fcr(Num a, Num* out)
     {
-        T1 const x{d1(a)};
-        out[0] = put(L::template floor<D2>(x).time_since_epoch().count());
-        out[1] = put(L::template ceil<D2>(x).time_since_epoch().count());
-        if constexpr (to_int) { out[2] = put(L::template round<D2>(x).time_since_epoch().count()); }
+        if constexpr (WithTP) {
+            T1 const x{d1(a)};
+            out[0] = put(L::template floor<D2>(x).time_since_epoch().count());
+            out[1] = put(L::template ceil<D2>(x).time_since_epoch().count());
+            if constexpr (to_int) { out[2] = put(L::template round<D2>(x).time_since_epoch().count()); }
+        } else {
+            (void)a;
+            (void)out;
+        }
     }
     static void tp_misc(Num a, Num* out)
     {
-        out[0] = put(T1{d1(a)}.time_since_epoch().count());
-        out[1] = put(T1{}.time_since_epoch().count());
-        out[2] = put(T1::min().time_since_epoch().count());
-        out[3] = put(T1::max().time_since_epoch().count());
+        if constexpr (WithTP) {
+            out[0] = put(T1{d1(a)}.time_since_epoch().count());
+            out[1] = put(T1{}.time_since_epoch().count());
+            out[2] = put(T1::min().time_since_epoch().count());
+            out[3] = put(T1::max().time_since_epoch().count());
+        } else {
+            (void)a;
+            (void)out;
+        }
     }
     static void tp_members(Num a, Num s, Num* out)
     {
-        if constexpr (same12) {
+        if constexpr (same12 && WithTP) {
             T1 p{d1(a)}, q{d1(a)}, r{d1(a)}, u{d1(a)}, w{d1(a)}, z{d1(a)};
             p += d1(s);
             q -= d1(s);
@@ -482,6 +498,7 @@ struct GroupDesc {
     i64 ctn, ctd;     // CT
     OpsTable const* e;
     OpsTable const* s;
+    bool with_tp;       // time_point operations are instantiated for this group
     char const* broken; // non-null: the group cannot be instantiated (message), with the two lcm operands
     i64 ba, bb;
     [[nodiscard]] auto same12() const -> bool { return I == J && k1 == k2; }
@@ -967,7 +984,6 @@ void second_counts(GroupDesc const& g, Val v, i64 (&out)[8], int& n)
     add(q + 1);
     add(-q);
     add(v.n);
-    add(3);
     add(-7);
     add(0);
 }
@@ -984,7 +1000,9 @@ void run_one(GroupDesc const& g, int sub, Val v, i64 c2)
     case S_UNARY: chk_unary(g, v, c2); break;
     case S_ARITH: chk_arith(g, v, c2); break;
     case S_CMP: chk_cmp(g, v, c2); break;
-    case S_TP: chk_tp(g, v, c2); break;
+    case S_TP:
+        if (g.with_tp) { chk_tp(g, v, c2); }
+        break;
     default: break;
     }
 }
@@ -1002,8 +1020,8 @@ void run_all(GroupDesc const& g, Val v)
     for (int t = 0; t < n; ++t) {
         chk_arith(g, v, cs[t]);
         chk_cmp(g, v, cs[t]);
-        if (t < 4) { chk_tp(g, v, cs[t], t == 0); }
-        if (t == 0 || t == 4) { chk_common(g, v, cs[t]); }
+        if (t < 2 && g.with_tp) { chk_tp(g, v, cs[t], t == 0); }
+        if (t == 0 || t == 3) { chk_common(g, v, cs[t]); }
         chk_unary(g, v, cs[t]);
     }
     lab(L_NEG, v.n < 0);
@@ -1082,8 +1100,20 @@ void run_group(GroupDesc const& g, vf::Ctx& c)
 template <i64 A, i64 B>
 concept lcm_gcd_const = requires { typename std::integral_constant<int, (etl::lcm(A, B), etl::gcd(A, B), 0)>; };
 
+// Which of the 7 x 100 groups exist (compile-time and memory budget: at most 6 translation units):
+//   int64->int64, int32->int32 and double->double for all 100 ordered period pairs,
+//   and for every ordered pair exactly one of the mixed combinations int32->int64, int64->int32, int64->double,
+//   double->int64 (chosen by (3i + j) mod 4, so each mixed combination sees 25 pairs spread over the period set).
+// time_point operations are instantiated for int64->int64 and double->double.
+constexpr int MIXED[4] = {2, 3, 5, 6};
+constexpr bool group_exists(int g)
+{
+    int const c = g / 100, i = (g / 10) % 10, j = g % 10;
+    return c == 0 || c == 1 || c == 4 || MIXED[(3 * i + j) % 4] == c;
+}
+constexpr bool group_with_tp(int g) { return g / 100 == 0 || g / 100 == 4; }
 // groups are dealt to the slices so that every slice sees every rep combination
-constexpr bool in_slice(int g) { return (g % 100 + 3 * (g / 100)) % C12_NSLICES == C12_SLICE; }
+constexpr bool in_slice(int g) { return group_exists(g) && (g % 100 + 3 * (g / 100)) % C12_NSLICES == C12_SLICE; }
 
 template <int G>
 constexpr auto desc() -> GroupDesc
@@ -1112,8 +1142,9 @@ constexpr auto desc() -> GroupDesc
     } else {
         using R1 = typename Combo<C>::r1;
         using R2 = typename Combo<C>::r2;
-        d.e      = &Ops<LibE, R1, R2, I, J>::table;
-        d.s      = &Ops<LibS, R1, R2, I, J>::table;
+        d.with_tp = group_with_tp(G);
+        d.e       = &Ops<LibE, R1, R2, I, J, group_with_tp(G)>::table;
+        d.s       = &Ops<LibS, R1, R2, I, J, group_with_tp(G)>::table;
     }
     return d;
 }
